@@ -79,9 +79,13 @@ Theorem C15_explicit_rows_kept_unless_cols_capped :
 Proof. exact thm_rows_kept. Qed.
 Print Assumptions C15_explicit_rows_kept_unless_cols_capped.
 
+(* ---- clauses 3 and 4 are named _partial: they are proved for the exact-rational instance only.
+   MISSING for the full statement: the same two theorems about the binary64 instance
+   (F.f_get_optimal_cols_and_rows), i.e. that IEEE rounding in width*scale, the quotients and math.ceil
+   never moves a result across an integer boundary.  That part is measured by harness/c15.py, not proved. *)
 (* ---- clause 3 (exact arithmetic): both automatic and no limit in the way -> the smallest cell box
    containing the scaled image (scaled cfg scale x = x * global_scale * local scale) *)
-Theorem C15_auto_minimal_exact : forall (cfg : q_config) t w h amc amr scale mc mr cw ch,
+Theorem C15_auto_minimal_partial : forall (cfg : q_config) t w h amc amr scale mc mr cw ch,
   0 < w -> 0 < h ->
   get_max_cols_and_rows (cfg_max_cols _ cfg) (cfg_max_rows _ cfg) t amc amr = Ok (mc, mr) ->
   get_cell_size (cfg_cell_size _ cfg) (cfg_default_cell_size _ cfg) t = (cw, ch) -> 0 < cw -> 0 < ch ->
@@ -90,7 +94,7 @@ Theorem C15_auto_minimal_exact : forall (cfg : q_config) t w h amc amr scale mc 
     C0 <= mc -> R0 <= mr ->
     q_get_optimal_cols_and_rows cfg t w h None None amc amr scale = Ok (C0, R0).
 Proof. exact thm_auto_minimal. Qed.
-Print Assumptions C15_auto_minimal_exact.
+Print Assumptions C15_auto_minimal_partial.
 
 Theorem C15_smallest_box_exists : forall (W H : Q) cw ch, (0 < W)%Q -> (0 < H)%Q -> 0 < cw -> 0 < ch ->
   exists C R, smallest_containing_box W H cw ch C R.
@@ -100,7 +104,7 @@ Print Assumptions C15_smallest_box_exists.
 (* ---- clause 4 (exact arithmetic): in every case but two explicit dimensions — automatic, explicit
    within the limits, explicit ABOVE the limits, capped or not — the box has no entirely unused
    row or column when the image is fitted into it preserving the aspect ratio *)
-Theorem C15_no_unused_row_or_col_exact : forall (cfg : q_config) t w h amc amr scale mc mr cw ch,
+Theorem C15_no_unused_row_or_col_partial : forall (cfg : q_config) t w h amc amr scale mc mr cw ch,
   0 < w -> 0 < h ->
   get_max_cols_and_rows (cfg_max_cols _ cfg) (cfg_max_rows _ cfg) t amc amr = Ok (mc, mr) ->
   get_cell_size (cfg_cell_size _ cfg) (cfg_default_cell_size _ cfg) t = (cw, ch) -> 0 < cw -> 0 < ch ->
@@ -109,7 +113,7 @@ Theorem C15_no_unused_row_or_col_exact : forall (cfg : q_config) t w h amc amr s
     q_get_optimal_cols_and_rows cfg t w h cols rows amc amr scale = Ok (C, R) ->
     no_unused_row_or_col (scaled cfg scale w) (scaled cfg scale h) cw ch C R.
 Proof. exact thm_no_unused. Qed.
-Print Assumptions C15_no_unused_row_or_col_exact.
+Print Assumptions C15_no_unused_row_or_col_partial.
 
 (* the Spec's fit factor exists (the [forall f, is_fit ...] in no_unused_row_or_col is not vacuous) *)
 Theorem C15_fit_exists : forall (W H BW BH : Q), (0 < W)%Q -> (0 < H)%Q ->
